@@ -504,6 +504,30 @@ def translate(hist, obs, ext=False):
         elif k == "api_pool":
             if not ext:
                 return clist(terms), len(terms), "pool-request-in-plain-history", meta
+            mw = op.get("meanwhile")
+            if mw and (o.get("meanwhile_during") and mw["kind"] == "request" or mw["kind"] == "object" and mw["at"] == "create"):
+                # two pool requests that overlapped (impossible while the whole request is one section under the pool mutex), or an
+                # object written by someone else right before the request's Create: no sequential model step describes that
+                return clist(terms), len(terms), "concurrent-pool-requests", meta
+            if mw and mw["kind"] == "request":
+                # the second request could only run after the first: two requests in a row, the state in between is not observed
+                cnt = len([e for e in (prev or {"alloc": []})["alloc"] if e[1].startswith("pool__%s_" % op["name"])])
+                creates = [c for c in calls if c[0] == "create"]
+                need = max(0, op["size"] - cnt) if op.get("prealloc") else 0
+                mine, rest = creates[:need], creates[need:]
+                if any(c[2] for c in creates):
+                    return clist(terms), len(terms), "store-fault-in-concurrent-pool-requests", meta
+                tb = "(PApiPool %s %s %s %s None)" % (cstr(op["name"]), cN(op["size"]), cbool(op.get("prealloc", False)), clist(cN(s2ip(c[1])) for c in mine))
+                ta = "(PApiPool %s %s %s %s None)" % (cstr(op["name"]), cN(mw["size"]), cbool(mw.get("prealloc", False)), clist(cN(s2ip(c[1])) for c in rest))
+                outb = "(RPool %s)" % {200: "PoolOk", 202: "PoolNotEnough"}.get(o.get("code"), "PoolErr")
+                outa = "(RPool %s)" % {200: "PoolOk", 202: "PoolNotEnough"}.get(o.get("meanwhile_code"), "PoolErr")
+                if ext == 3:
+                    tb, ta = "(P2 %s)" % tb, "(P2 %s)" % ta
+                terms.append("(" + tb + ", " + outb + ", None)")
+                terms.append("(" + ta + ", " + outa + ", (Some " + cwdump(d) + "))")
+                meta.append((k, len(terms) - 1))
+                prev = d
+                continue
             creates = [c for c in calls if c[0] == "create"]
             picks = [s2ip(c[1]) for c in creates]
             nfail = None
